@@ -31,6 +31,14 @@ def isFrmw (d : Cmd × Nat × List Nat) : Bool :=
 /-- (logical address, length) of the LRW datagrams of a cycle, in order. -/
 def lrws (frames : List Frame) : List (Nat × Nat) := (allDescs frames).filterMap lrwOf
 
+def lrwDataOf (d : Cmd × Nat × List Nat) : Option (List Nat) :=
+  match d.1 with
+  | .lrw _ => some d.2.2
+  | _ => none
+
+/-- The image bytes a cycle transmitted: data of the LRW datagrams, concatenated in order. -/
+def lrwData (frames : List Frame) : List Nat := ((allDescs frames).filterMap lrwDataOf).flatten
+
 /-- Station addresses of the state-check datagrams of a cycle, in order. -/
 def fprds (frames : List Frame) : List Nat := (allDescs frames).filterMap fprdOf
 
@@ -53,6 +61,56 @@ theorem allDescs_append (f1 f2 : List Frame) : allDescs (f1 ++ f2) = allDescs f1
 
 theorem allDescs_single (fr : Frame) : allDescs [fr] = fr.dgrams.map desc := by
   simp [allDescs, allDgrams]
+
+/-! ### Requests paired with their answers -/
+
+def isLrw (d : Dgram) : Bool :=
+  match d.cmd with
+  | .lrw _ => true
+  | _ => false
+
+def isFprd (d : Dgram) : Bool :=
+  match d.cmd with
+  | .fprd _ _ => true
+  | _ => false
+
+/-- Every transmitted datagram with the datagram that came back in its place. -/
+def pairs (frames : List Frame) (resps : List (List RPdu)) : List (Dgram × RPdu) :=
+  (frames.zip resps).flatMap (fun x => x.1.dgrams.zip x.2)
+
+/-- The answers to the LRW datagrams, in order. -/
+def lrwAnswers (frames : List Frame) (resps : List (List RPdu)) : List RPdu :=
+  ((pairs frames resps).filter (fun x => isLrw x.1)).map (·.2)
+
+/-- What the network returned for the group's logical window, byte by byte from `pdiStart` on. -/
+def returned (frames : List Frame) (resps : List (List RPdu)) : List Nat :=
+  (lrwAnswers frames resps).flatMap (·.data)
+
+/-- Sum of the working counters of the process-data datagrams. -/
+def lrwWkcSum (frames : List Frame) (resps : List (List RPdu)) : Nat :=
+  ((lrwAnswers frames resps).map (·.wkc)).sum
+
+/-- The AL states the devices reported, in the order of the state checks. -/
+def stateAnswers (frames : List Frame) (resps : List (List RPdu)) : List Nat :=
+  ((pairs frames resps).filter (fun x => isFprd x.1)).map (fun x => nib x.2)
+
+/-- Every frame was answered, datagram for datagram, with data of the requested length. -/
+def Shaped (frames : List Frame) (resps : List (List RPdu)) : Prop :=
+  frames.length ≤ resps.length ∧ ∀ x ∈ frames.zip resps, ShapedOne x.1.dgrams x.2
+
+theorem zip_append_extra {α β : Type} : ∀ (l1 : List α) (l2 r : List β), l1.length = l2.length →
+    l1.zip (l2 ++ r) = l1.zip l2
+  | [], l2, r, _ => by simp
+  | a :: l1, [], r, h => by simp at h
+  | a :: l1, b :: l2, r, h => by
+    simp only [List.cons_append, List.zip_cons_cons]
+    rw [zip_append_extra l1 l2 r (by simpa using h)]
+
+theorem pairs_snoc (frames : List Frame) (used : List (List RPdu)) (fr : Frame) (r : List RPdu)
+    (h : used.length = frames.length) :
+    pairs (frames ++ [fr]) (used ++ [r]) = pairs frames used ++ fr.dgrams.zip r := by
+  unfold pairs
+  rw [List.zip_append h.symm]; simp
 
 /-! ### What one pass contributes -/
 
@@ -88,6 +146,20 @@ theorem plan_lrws (c : Cfg) (s : St) :
   have h3 : ((s.subs.take (tOf c s)).map fprdDesc).filterMap lrwOf = [] := filterMap_lrwOf_fprd _
   simp only [planDescs, List.filterMap_append, h1, h3, List.nil_append, List.append_nil]
   unfold lrwDescs; split <;> simp [lrwOf]
+
+theorem filterMap_lrwDataOf_fprd (l : List Nat) : (l.map fprdDesc).filterMap lrwDataOf = [] := by
+  induction l with
+  | nil => rfl
+  | cons a t ih => simp [List.filterMap_cons, lrwDataOf, fprdDesc, ih]
+
+theorem plan_lrwData (c : Cfg) (s : St) :
+    (planDescs c s).filterMap lrwDataOf
+      = if remOf s = 0 then [] else [(s.image.drop s.sent).take (kOf c s)] := by
+  have h1 : (dcDescs c s).filterMap lrwDataOf = [] := by
+    rcases dcDescs_cases c s with ⟨_, h⟩ | ⟨r, _, _, _, h⟩ <;> simp [h, frmwDesc, lrwDataOf]
+  have h3 : ((s.subs.take (tOf c s)).map fprdDesc).filterMap lrwDataOf = [] := filterMap_lrwDataOf_fprd _
+  simp only [planDescs, List.filterMap_append, h1, h3, List.nil_append, List.append_nil]
+  unfold lrwDescs; split <;> simp [lrwDataOf]
 
 theorem plan_fprds (c : Cfg) (s : St) :
     (planDescs c s).filterMap fprdOf = s.subs.take (tOf c s) := by
